@@ -541,6 +541,21 @@ Plan plan_C09(Rng& r, const std::string& tier) {
 				if (r.chance(1, 6)) g.out.push_back(gen::mk(c, "fa_incl", {b, a, long(r.below(3)), long(r.below(2))}));
 				if (r.chance(1, 3)) g.out.push_back(gen::mk(c, "fa_incl_sim", {a, b, long(r.below(2)), long(r.chance(1, 2) ? 0 : r.below(4))}));      // with a client-supplied simulation preorder
 			}
+			if (r.chance(1, 4)) {
+				// an operand that is the RESULT of an earlier operation (mirror image, union, trimming), not a freshly loaded automaton
+				int src = r.chance(1, 2) ? a : b, x = g.n;
+				switch (r.below(5)) {
+					case 0: case 1: g.out.push_back(gen::mk(c, "fa_reverse", {src})); break;
+					case 2: g.out.push_back(gen::mk(c, "fa_union", {a, b, long(r.below(2))})); break;
+					case 3: g.out.push_back(gen::mk(c, "fa_unreach", {src})); break;
+					default: g.out.push_back(gen::mk(c, "fa_useless", {src})); break;
+				}
+				++g.n;
+				int y = x; if (r.chance(1, 3)) { g.out.push_back(gen::mk(c, "fa_reverse", {r.chance(1, 2) ? x : (src == a ? b : a)})); y = g.n; ++g.n; }
+				g.out.push_back(gen::mk(c, "fa_incl_all", {x, r.chance(1, 2) ? b : y, long(r.below(100000))}));
+				g.out.push_back(gen::mk(c, "fa_incl", {r.chance(1, 2) ? a : y, x, long(r.below(3)), long(r.below(2))}));
+				if (r.chance(1, 3)) g.out.push_back(gen::mk(c, "fa_incl_sim", {x, y == x ? b : y, long(r.below(2)), long(r.below(4))}));
+			}
 			if (r.chance(1, 5)) {
 				// one operand OBJECT gets another value (a near relative is copy-assigned over it) and the question is asked again
 				g.out.push_back(gen::mk(c, "fa_twist", {r.chance(1, 2) ? a : b, long(r.below(100000)), long(r.below(8))}));
@@ -577,6 +592,24 @@ Plan plan_C10(Rng& r, const std::string&) {
 					case 5: g.out.push_back(gen::mk(c, "fa_unreach", {a})); ++g.n; break;
 					case 6: g.out.push_back(gen::mk(c, "fa_useless", {a})); ++g.n; break;
 					default: g.out.push_back(gen::mk(c, "fa_witness", {a})); ++g.n; break;
+				}
+			}
+			if (r.chance(1, 3)) {
+				// chains: the result of one operation is an operand of the next (mirror images first: Reverse leaves the start bookkeeping in an unusual state)
+				int x = g.n; g.out.push_back(gen::mk(c, r.chance(2, 3) ? "fa_reverse" : (r.chance(1, 2) ? "fa_unreach" : "fa_useless"), {r.chance(1, 2) ? a : b})); ++g.n;
+				int kk = r.range(1, 3);
+				for (int i = 0; i < kk; ++i) {
+					int other = r.chance(1, 2) ? a : b; bool left = r.chance(1, 2);
+					switch (r.below(7)) {
+						case 0: g.out.push_back(gen::mk(c, "fa_union", {left ? x : other, left ? other : x, long(r.below(2))})); break;
+						case 1: g.out.push_back(gen::mk(c, "fa_union_disj", {left ? x : other, left ? other : x})); break;
+						case 2: g.out.push_back(gen::mk(c, "fa_isect", {left ? x : other, left ? other : x, long(r.below(2))})); break;
+						case 3: g.out.push_back(gen::mk(c, "fa_reverse", {x})); break;
+						case 4: g.out.push_back(gen::mk(c, "fa_unreach", {x})); break;
+						case 5: g.out.push_back(gen::mk(c, "fa_useless", {x})); break;
+						default: g.out.push_back(gen::mk(c, "fa_witness", {x})); break;
+					}
+					x = g.n; ++g.n;
 				}
 			}
 			if (r.chance(1, 5)) {
